@@ -5,6 +5,59 @@ import excs
 
 BUDGET = 200
 
+# exception groups (coq/Model/RetryGroups.v: BaseExceptionGroupC = [4], ExceptionGroupC = [0; 15]); deeper paths become
+# dynamic subclasses through excs.cls_of.  Registered here, in this worker process only.
+excs._cache[(4,)] = BaseExceptionGroup
+excs._cache[(0, 15)] = ExceptionGroup
+
+
+class MalformedCase(Exception):
+    pass
+
+
+def make_exc(o, i):
+    """the exception object of outcome o = ['raise', path] | ['group', tree]; tree = [path] (a plain leaf) or
+    [path, [tree, ...]] (a group of class `path` carrying the members).  A fresh object on every call."""
+    def build(t):
+        cls = excs.cls_of(t[0])
+        if len(t) == 1:
+            if issubclass(cls, BaseExceptionGroup):
+                raise MalformedCase('plain instance of a group class %r' % (t[0],))
+            return cls('boom %d' % i)
+        try:
+            ex = cls('boom %d' % i, [build(m) for m in t[1]])
+        except (TypeError, ValueError) as err:
+            raise MalformedCase('group %r cannot be built: %r' % (t, err))
+        if type(ex) is not cls:      # BaseExceptionGroup(...) of Exception members answers an ExceptionGroup
+            raise MalformedCase('group %r comes out as %s' % (t, type(ex).__name__))
+        return ex
+    return build([o[1]] if o[0] == 'raise' else o[1])
+
+
+def validate_outcomes(outs):
+    for o in outs:
+        if o[0] != 'ret':
+            make_exc(o, 0)
+
+
+def describe(kind, obj, produced):
+    """what the caller received when no invocation produced it (part of the message only)"""
+    if kind != 'exc':
+        return None
+    d = type(obj).__name__
+    if isinstance(obj, BaseExceptionGroup):
+        made = {id(m) for p in produced if isinstance(p, BaseExceptionGroup) for m in walk(p)}
+        if any(id(m) in made for m in walk(obj)):
+            d += ' (a new group object carrying members of a group an invocation raised)'
+    return d
+
+
+def walk(g):
+    for m in g.exceptions:
+        yield m
+        if isinstance(m, BaseExceptionGroup):
+            yield from walk(m)
+
 
 class BudgetExceeded(BaseException):
     pass
@@ -16,6 +69,7 @@ def run_case(case):
     produced = []          # object produced by invocation i (return value or exception instance)
     a1, a2, a3 = object(), [1, 2], {'k': object()}
     outs, tail = case['outs'], case['tail']
+    validate_outcomes(outs + [tail])
 
     def script(*args, **kwargs):
         i = len(produced)
@@ -28,7 +82,7 @@ def run_case(case):
             v = object()
             produced.append(v)
             return v
-        ex = excs.cls_of(o[1])('boom %d' % i)
+        ex = make_exc(o, i)
         produced.append(ex)
         raise ex
     script.__name__ = 'script'
@@ -59,7 +113,13 @@ def run_case(case):
     else:
         res = [3, 0]     # something that no invocation produced
     return {'result': res, 'events': events, 'n_calls': len(produced),
-            'exc': type(obj).__name__ if kind == 'exc' else None}
+            'exc': (type(obj).__name__ if idx else describe(kind, obj, produced)) if kind == 'exc' else None,
+            'isinst': isinst_flags(produced, exceptions)}
+
+
+def isinst_flags(produced, exceptions):
+    """isinstance(obj, exceptions) of every raised object, for the driver's check of the class map (None: a return)"""
+    return [bool(isinstance(p, exceptions)) if isinstance(p, BaseException) else None for p in produced]
 
 
 def run_seq(case):
@@ -81,10 +141,12 @@ def run_seq(case):
             v = object()
             produced.append(v)
             return v
-        ex = excs.cls_of(o[1])('boom %d' % i)
+        ex = make_exc(o, i)
         produced.append(ex)
         raise ex
     script.__name__ = 'script'
+    for call in case['calls']:
+        validate_outcomes(call['outs'] + [call['tail']])
     spec = [excs.cls_of(p) for p in case['spec']]
     exceptions = spec[0] if case.get('single') and len(spec) == 1 else tuple(spec)
     real_sleep = time.sleep
@@ -105,7 +167,8 @@ def run_seq(case):
             idx = [i for i, p in enumerate(state['produced']) if p is obj]
             res = [0, idx[-1]] if idx else ([1, 0] if kind == 'ret' and obj is None else [3, 0])
             results.append({'result': res, 'events': state['events'], 'n_calls': len(state['produced']),
-                            'exc': type(obj).__name__ if kind == 'exc' else None})
+                            'exc': (type(obj).__name__ if idx else describe(kind, obj, state['produced'])) if kind == 'exc' else None,
+                            'isinst': isinst_flags(state['produced'], exceptions)})
     finally:
         time.sleep = real_sleep
     return {'calls': results}
